@@ -2,6 +2,7 @@ package ply
 
 import (
 	"errors"
+	"io"
 	"strconv"
 )
 
@@ -15,6 +16,9 @@ func (lpr *listAsciiPropertyReader) Read(line []string) (offset int, err error) 
 	v, err := strconv.ParseInt(line[0], 10, 32)
 	if err != nil {
 		return -1, err
+	}
+	if v < 0 || int(v) > len(line)-1 {
+		return -1, io.ErrUnexpectedEOF
 	}
 	lpr.lastReadListSize = int32(v)
 
